@@ -154,6 +154,16 @@ fn alphabet(n: usize, tier: Tier) -> Vec<Dev> {
         s.variants[n - 1].extra_attrs.push("#[strum_discriminants(doc = \"d\")]".into());
         true
     }));
+    // the MAIN enum derives std's Default with `#[default]` on its first variant: a helper attribute of another derive, which
+    // must not reach the generated enum (alone, and next to a requested Default for the discriminants with its own default)
+    d.push(dev("main enum: derive(::core::default::Default) + #[default] on v0", &["mdef", "kind0"], |s| {
+        if !s.variants[0].kind.is_unit() || !s.generics.is_empty() {
+            return false;
+        }
+        s.extra_attrs.push("#[derive(::core::default::Default)]".into());
+        s.variants[0].extra_attrs.push("#[default]".into());
+        true
+    }));
     d.push(dev("strum_discriminants(cfg_attr(all(), derive(EnumMessage))) + v0 pass-through message", &["dd", "dmsg0"], |s| {
         s.extra_attrs.push("#[strum_discriminants(cfg_attr(all(), derive(strum::EnumMessage)))]".into());
         s.variants[0].extra_attrs.push("#[strum_discriminants(strum(message = \"dm0\"))]".into());
